@@ -238,6 +238,15 @@ theorem cancel_tinv {s s' : Sys} {t : Nat} (hI : SockLoss.SInv s) (h : stepX s (
   obtain ⟨k, hk, _, _, rfl⟩ := stepX_cancel h
   exact SockLoss.TInv.subF hI _ (flOf_cancel_subset hk)
 
+/-- the link between `is_open` and the sessions recorded in the trace (`SockLoss.OInv`) for the extended system: a
+    cancellation changes no field of the socket -/
+theorem oinv_reachableX {s : Sys} (h : ReachableX s) : SockLoss.OInv s.core := by
+  refine ReachableX.induction (P := fun s => SockLoss.OInv s.core) (SockLoss.oinv_reachable ⟨[], rfl⟩) ?_ s h
+  intro s l s' _ hp hst
+  cases l with
+  | cancel t => rw [stepX_cancel_core hst]; exact hp
+  | base l => exact SockLoss.step_oinv hp hst
+
 theorem tinv_reachableWFX {s : Sys} (h : ReachableWFX s) : SockLoss.SInv s := by
   obtain ⟨ls, hn, hr⟩ := h
   refine runX_induction (P := fun ls s => (sendSidsX ls).Nodup → SockLoss.SInv s) (fun _ => SockLoss.sinv_init) ?_ ls s hr hn
@@ -249,7 +258,7 @@ theorem tinv_reachableWFX {s : Sys} (h : ReachableWFX s) : SockLoss.SInv s := by
   | base l =>
     have hinv : AInv (abs (sendSidsX ls) s) := ainv_of_runX hnd0 hrun
     have hrw : SockOrder.rwValid s.core := (runX_sinv ls s hrun).1.rwv
-    refine SockLoss.step_tinv (hp hnd0) (fun w hw => hrw w hw) ?_ hst
+    refine SockLoss.step_tinv (hp hnd0) (fun w hw => hrw w hw) (oinv_reachableX ⟨ls, hrun⟩) ?_ hst
     intro sid r life ok hl
     subst hl
     cases hx : acceptedAt s.core.trace sid with
